@@ -215,6 +215,8 @@ func C03(x *Ctx, r *core.Result) {
 	e := r.Rule("R03e", "offsets: re-basing rule R08a for every sub-slice call")
 	x.rebaseRule(r, e)
 	r.CheckFloor(e, 10)
+	f := r.Rule("R03f", "scratch integrity: the key and string scratch buffers are owned by one reader each, used only truncated to length 0 and copied out by string(...) — so the unescaped key a member is stored under cannot be overwritten while its value is being decoded (R16d)")
+	x.scratchRules(r, f)
 	r.NotDecided = append(r.NotDecided,
 		"equality of whole value trees with encoding/json as a computed fact: it is the composition of C07 (members once, in order, key bytes), C06 (strings), C04 (numbers) and C13 (literals) with the dispatch/store/guard rules above — an argument, not a computation",
 		"float values beyond C04's scope")
